@@ -14,7 +14,7 @@ CHECKS = {
         text="Seeded random plans drive the real StunClient through loss, duplication, delay past the final time-out, replay, corruption, late/early timers and restarts on both transports and with every mechanism; every step is checked for a second final outcome, for packets/timers/events naming a finished transaction and for late responses that are not discarded; at quiescence every request must have exactly one outcome and correctly protected late responses are probed. Exploration is the right level: the property quantifies over interleavings and fault sequences that can only be sampled."),
     "C06": dict(cat="exploration", ref="DESIGN.md §6 C06",
         tech="deterministic simulation with discrete-event clock: seeded search over timer lateness/earliness schedules, compared with the RFC 8489 schedule arithmetic",
-        text="For every timer call of every explored run the oracle derives, from (t0, RTO, Rc, Rm) alone, whether each awaiting request must retransmit, must fail or must stay silent at that instant (pending-expiry rule: missed slots skipped, deadline fixed) and compares with what the client did; retransmissions must be byte-identical and at most Rc."),
+        text="For every timer call of every explored run the oracle derives, from (t0, RTO, Rc, Rm) alone, whether each awaiting request must retransmit, must fail or must stay silent at that instant (pending-expiry rule: missed slots skipped, deadline fixed) and compares with what the client did; retransmissions must be byte-identical and at most Rc; while the RFC 6298 reference has seen no round-trip sample the request must be scheduled with the configured RTO whatever happened to earlier requests."),
     "C11": dict(cat="exploration", ref="DESIGN.md §6 C11",
         tech="deterministic simulation: seeded search over shared-timer schedules, notification checked against ledger-derived pending expiries, bounded liveness after faults stop",
         text="A controller that follows the documented contract literally (one armed timer, replaced by each notification, fired however late) drives 2-5 overlapping requests; after every successful send and every timer call the notification must exist iff something is awaiting, name a request with the earliest pending expiry and give exactly the remaining time; once faults stop every request must finish."),
@@ -32,7 +32,7 @@ CHECKS = {
         text="Codec half: for sampled in-flight messages carrying FINGERPRINT (built by the real client and by the reference server) the independent CRC must equal the attribute, and every single-bit fault at every position plus four byte-substitution classes per byte are applied in turn; the altered bytes must never be accepted as carrying a valid FINGERPRINT by the real decoder/validator (differential against the independent verifier). Client half: under seeded plans with every mechanism, everything emitted ends with one valid FINGERPRINT and a received message whose FINGERPRINT is absent or wrong returns an error, produces no event and completes nothing."),
     "C13": dict(cat="exploration", ref="DESIGN.md §6 C13",
         tech="deterministic simulation: wire tap on client output decoded by an independent parser/verifier across all explored histories",
-        text="Every packet the client emits along the explored histories is parsed and verified independently: class/method as asked, fresh transaction id, application attributes (one per type, first-insertion order, last value) first, then only the mechanism's credential attributes, then at most one MI, one MI-SHA256 and one FINGERPRINT in that order, each verifying; no type twice; every retransmission byte-identical."),
+        text="Every packet the client emits along the explored histories is parsed and verified independently: class/method as asked, fresh transaction id, application attributes (one per type, first-insertion order, last value) first, then only the mechanism's credential attributes, then at most one MI, one MI-SHA256 and one FINGERPRINT in that order, each verifying; no type twice; every retransmission byte-identical. Which credential attributes the mechanism requires in the credential state reached along the history is decided by the state the C07/C08 oracles track (short-term: USERNAME and both integrity attributes until an algorithm is agreed by an authenticated response, then exactly that one; long-term: none before the first accepted challenge, afterwards what an RFC 8489 9.2.4 server insists on); application lists include decoded FINGERPRINT / integrity values that cannot be re-encoded and must be replaced, not choked on. The two long-term request shapes pinned by the existing tests are known findings here as under C08."),
     "C15": dict(cat="exploration", ref="DESIGN.md §6 C15",
         tech="deterministic simulation with discrete-event clock: long seeded transaction histories with delays, retransmissions and idle gaps around 600 s, compared with a double-precision RFC 6298 reference",
         text="Histories of up to 120 transactions per run on unreliable transport, with response delays from microseconds to beyond the first retransmission, transactions completed by 401/Retry, idle gaps, stalls and the exact 600 s boundary; after every send and every response the client's RTO (read through the H2 snapshot, and through the public API whenever a request is sent while nothing else is outstanding) must equal an f64 RFC 6298 reference (alpha 1/8, beta 1/4, K 4, granularity, Karn's rule, staleness) within 1e-5 relative + 1 us."),
@@ -50,7 +50,7 @@ CHECKS = {
         text="Authenticated traffic between the real client and the reference server (short-term; long-term MD5 and SHA-256 keys; every legal tail) is harvested from simulated conversations. For each sampled message whose MAC equals the independently computed HMAC under the independently derived key: the untampered message must be accepted by decode(with_key, with_validation) and by validate(get_input_text); a key derived from a password one character off must be rejected; then every single-bit fault in every byte of the protected prefix (except the two header-length bytes) and of the MAC is applied in turn and must never be accepted as authenticated. Along the conversations themselves the client's accept/reject decisions are compared with the independent verifier."),
     "C09": dict(cat="exploration", ref="DESIGN.md §6 C09",
         tech="deterministic simulation with on-path attribute-splice faults; wire tap compares every decoder configuration with an independent 3-flag admission automaton; systematic sweep of all suffixes up to length 3/4 per base tail",
-        text="The rule exists so that attributes injected after the integrity/FINGERPRINT of a valid message by anything on the path have no effect; that fault is what is simulated. Spliced suffixes (ordinary, unknown, MI, MI-SHA256, FINGERPRINT, each with right or wrong checksum) are appended to valid in-flight messages with every base tail; the decoded attribute list under all 16 configurations, the validation verdict and what the client delivers are compared with an independent admission automaton; all 32 (state, next kind) pairs must be visited. The exhaustive 87,380-sequence enumeration of the property's quantifier is bounded enumeration of inputs (another technique) and is not claimed; suffixes up to length 4 per base tail are swept."),
+        text="The rule exists so that attributes injected after the integrity/FINGERPRINT of a valid message by anything on the path have no effect; that fault is what is simulated. Spliced suffixes (ordinary, unknown, MI, MI-SHA256, FINGERPRINT, each with right or wrong checksum) are appended to valid in-flight messages with every base tail; the decoded attribute list under all 16 configurations, the validation verdict and what the client delivers are compared with an independent admission automaton; all 32 (state, next kind) pairs must be visited. The exhaustive 87,380-sequence enumeration of the property's quantifier is bounded enumeration of inputs (another technique) and is not claimed; suffixes up to length 4 per base tail are swept. Client-level reading: a message the client must accept by the C10/C07/C08 rules must not be rejected because it carries attributes the rule does not admit."),
 }
 
 NOT_APPLICABLE = {
